@@ -69,10 +69,20 @@ structure Fix where
   token : Bool := false
   /-- `.tri` / `.fgrid`: a vertex is added when its coordinates have been read -/
   prealloc : Bool := false
+  /-- `.msh` reader: triangles and quads are turned back (the writer turns them outward) -/
+  faces : Bool := false
+  /-- `.su2` reader: a MARKER_TAG that is an integer is the id of the marker's elements -/
+  su2Tag : Bool := false
+  /-- `.su2` writer: `NMARK= 0` for a mesh without marker elements -/
+  su2NoMarker : Bool := false
+  /-- `.msh` writer: the cell nodes are renumbered like the vertices (driver: the mesh is handed over compacted) -/
+  mshRenumber : Bool := false
   deriving DecidableEq, Repr, Inhabited
 
 def Fix.none : Fix := {}
-def Fix.all : Fix := { index := true, token := true, prealloc := true }
+def Fix.all : Fix :=
+  { index := true, token := true, prealloc := true, faces := true, su2Tag := true, su2NoMarker := true,
+    mshRenumber := true }
 
 /-- **model selection**: the readers as they are in /repo today -/
 def Fix.current : Fix := Fix.none
@@ -630,6 +640,22 @@ def su2Point (st : Su2State) (l : List Tok) : R Su2State :=
   | .ok (some f) =>
     .ok { st with m := { st.m with nodes := st.m.nodes ++ [⟨f.getD 0 0, f.getD 1 0, if st.ndime = 2 then 0 else f.getD 2 0⟩] } }
 
+/-- the integer a `MARKER_TAG= <tag>` line names, when the tag is one integer piece and nothing follows it (proposed
+    repair: `strtol` must consume the rest of the line) -/
+def su2TagInt : List Tok → Option Int
+  | [] => none
+  | t :: r =>
+    match t.text? with
+    | some s =>
+      if s.toList.contains '=' then
+        let rest := (s.toList.dropWhile (· != '=')).drop 1
+        if !rest.isEmpty then none   -- `MARKER_TAG=7` in one piece: not what the tie generates; position is used
+        else match r with
+          | [.int n] => if int32 n then some n else none
+          | _ => none
+      else su2TagInt r
+    | none => su2TagInt r
+
 /-- the markers `faceid = 1..nmark`: tag line, element-count line, elements -/
 def su2Marks (fx : Fix) : Nat → Int → Su2State → List (List Tok) → R (Su2State × List (List Tok))
   | 0, _, st, ls => .ok (st, ls)
@@ -637,6 +663,11 @@ def su2Marks (fx : Fix) : Nat → Int → Su2State → List (List Tok) → R (Su
   | n + 1, faceid, st, tagLine :: ls =>
     if !lineFits tagLine then .error .unmodelled else
     if !lineHas "MARKER_TAG" tagLine then fail else
+    -- `MARKER_TAG=7` in one piece would be read as 7 by the repaired reader; the model follows `MARKER_TAG= 7`
+    if fx.su2Tag ∧ tagLine.any (fun t => match t.text? with
+        | some s => s.toList.contains '=' && !((s.toList.dropWhile (· != '=')).drop 1).isEmpty | none => false)
+      then .error .unmodelled else
+    let marker : Int := if fx.su2Tag then (su2TagInt tagLine).getD faceid else faceid
     match ls with
     | [] => fail
     | elemsLine :: ls =>
@@ -646,7 +677,7 @@ def su2Marks (fx : Fix) : Nat → Int → Su2State → List (List Tok) → R (Su
       | none => .error (.st .null)
       | some (.error e) => .error e
       | some (.ok ncell) =>
-        match su2Lines (su2MarkElem fx faceid) (cnt ncell) st ls with
+        match su2Lines (su2MarkElem fx marker) (cnt ncell) st ls with
         | .error e => .error e
         | .ok (st, ls) => su2Marks fx n (faceid + 1) st ls
 
@@ -716,10 +747,11 @@ def su2MarkBlocks (m : TMesh) : Nat → Int → List Tok
 /-- the ids the marker sweep runs over -/
 def su2Ids (m : TMesh) : List Int := if m.twod then idsOf 2 m.edg else idsOf 3 m.tri ++ idsOf 4 m.qua
 
-/-- ref_export_su2 (a mesh with at least one marker element: `max_faceid - min_faceid + 1` overflows `int` otherwise) -/
+/-- ref_export_su2 (for a mesh with at least one marker element: `max_faceid - min_faceid + 1` overflows `int`
+    otherwise; the proposed repair writes `NMARK= 0` then: `lo = 1, hi = 0`) -/
 def encodeSu2 (m : TMesh) : List Tok :=
-  let lo := minId (su2Ids m)
-  let hi := maxId (su2Ids m)
+  let lo := if (su2Ids m).isEmpty then 1 else minId (su2Ids m)
+  let hi := if (su2Ids m).isEmpty then 0 else maxId (su2Ids m)
   [.word "NDIME=", .int (if m.twod then 2 else 3), .nl, .word "NPOIN=", .int m.nodes.length, .nl] ++
   (m.nodes.flatMap fun p => (if m.twod then [Tok.num p.x, .num p.y] else vertToks p) ++ [.nl]) ++
   (if m.twod then
@@ -786,6 +818,7 @@ def mshElems (fx : Fix) (k : MshKind) (per : Nat) (nnode : Int) : Nat → TMesh 
     | .error e => .error e
     | .ok (raw, ts) =>
     let hasId := k == .edg || k == .tri || k == .qua
+    let raw := if fx.faces ∧ (k == .tri || k == .qua) then raw.reverse else raw
     match addCell1 (if k == .pyr then permute mshPyr raw else raw) (if hasId then [tag] else []) with
     | .error e => .error e
     | .ok c => mshElems fx k per nnode n (mshPut m k c) ts
